@@ -123,6 +123,38 @@ def gen_cli_cases(ctx, which):
         yield {"kind": "cli", "which": which, "fmt": fmt, "data": data, "off": off, "opts": gen_opts(r, which, fmt, data)}
 
 
+# ------------------------------------------------------------------------------------------------ tables
+def check_tables(ctx, which):
+    """T: every `-r` choice of the real parser → PoseRelation (common.get_pose_relation) → unit of the metric,
+    against the model's tables (driver op `relinfo`)"""
+    import argparse
+    from evo import common_ape_rpe as common
+    from evo.core import metrics
+    if which == "ape":
+        from evo import main_ape_parser as mp
+    else:
+        from evo import main_rpe_parser as mp
+    choices = None
+    sub = [a for a in mp.parser()._actions if isinstance(a, argparse._SubParsersAction)][0]
+    for a in sub.choices["tum"]._actions:
+        if a.dest == "pose_relation":
+            choices = list(a.choices)
+    prop = "C01" if which == "ape" else "C02"
+    outs = core.run_driver([f"{prop} relinfo {c}" for c in choices], prop)
+    table = {}
+    for c, o in zip(choices, outs):
+        rel = common.get_pose_relation(argparse.Namespace(pose_relation=c))
+        unit = (metrics.APE(rel) if which == "ape" else metrics.RPE(rel)).unit.value
+        got = f"{rel.value}|{unit}"
+        f = o.split("|")
+        want = "BAD-OP" if len(f) != 3 else f"{f[0]}|{f[1] if which == 'ape' else f[2]}"
+        table[c] = got
+        if got != want:
+            ctx.mismatch({"kind": "table", "choice": c}, f"-r {c}: relation/unit table differs from the model", got, want)
+    ctx.notes["relation_table"] = table
+    ctx.count("branch", "relation-unit-table", len(choices))
+
+
 # ------------------------------------------------------------------------------------------------ files, argv
 def write_files(case, d):
     data, fmt = case["data"], case["fmt"]
